@@ -426,6 +426,15 @@ func DelMap(m map[string]int, k string)   { delete(m, k) }
 func SetStr(p *string, v string)          { *p = v }
 func Run(f func())                        { f() }
 
+// named types with mutating methods and no storage anchor: a value converted
+// to one of them carries the converted value's backing store into the method
+type Buf []byte
+func (b Buf) Poke(i int, v byte) { b[i] = v }
+type Ints []int
+func (s Ints) Poke(i, v int) { s[i] = v }
+type SMap map[string]int
+func (m SMap) Put(k string, v int) { m[k] = v }
+
 type Anchor struct{ N int }
 
 var G = &Anchor{N: 1}
